@@ -22,6 +22,9 @@ VERIF = os.path.dirname(os.path.dirname(os.path.abspath(__file__)))
 BODIES = {"B1": "keep;\r\n", "B2": "# two\r\nif true {\r\n  stop;\r\n}", "B3": "", "B4": "OK x\r\nNO\r\nBYE\r\n",
           "B5": "redirect \"é@ex.org\";\nkeep;\n", "B6": "discard;\r\n\r\n",
           "B7": "# sep\u2028arators \x0c in\x0bside \u0085 a line\x1c\r\nkeep;\r\n"}
+# a script of several read blocks (the client reads 4096 octets at a time), with lines that look like protocol
+BODIES["B10"] = "".join("# rule %d\r\nif header :contains \"subject\" \"OK {%d}\" { fileinto \"f%d\"; }\r\nNO\r\n" % (k, k, k)
+                        for k in range(90))
 NAMES = ["a", "b", "c"]
 STEP_VERB = {"list": "LISTSCRIPTS", "get": "GETSCRIPT", "put": "PUTSCRIPT", "setactive": "SETACTIVE", "delete": "DELETESCRIPT"}
 
@@ -193,12 +196,23 @@ def replay_rename(task):
     scripts0 = dict(scripts0) if isinstance(scripts0, dict) else {}
     events = [["init", [[k, v] for k, v in sorted(scripts0.items())], active0]]
     d = Double(scripts0, active0, events)
-    if fat != "none":
-        d.fault[STEP_VERB[fat]] = fkind
     d.nocode = seed
     rng = random.Random(seed)
     plan = (lambda bts: C_split(bts, rng)) if seed % 3 == 0 else None
     c, s = M.connected_client(d, plan=plan, version=False)
+    if seed % 4 == 1:
+        # history: this client has listed the scripts *before* another session created the target (or changed the
+        # active script); the rename starts from the store as it is now, not from what the client saw earlier
+        d.events = []
+        saved = (dict(d.scripts), d.active)
+        d.scripts.pop(new, None)
+        if d.active == new:
+            d.active = ""
+        do_call(c, s, [], "listscripts", "", "")
+        d.scripts, d.active = dict(saved[0]), saved[1]
+        d.events = events
+    if fat != "none":
+        d.fault[STEP_VERB[fat]] = fkind
     events.append(["call", "renamescript_emulated", old, new])
     do_call(c, s, events, "renamescript", old, new)
     cmds = [e[1] for e in events if e[0] == "cmd"]
@@ -211,7 +225,10 @@ def C_split(b, rng):
     if n < 2:
         return [n]
     k = rng.randrange(1, min(n, 6))
-    pts = sorted(rng.sample(range(1, n), k))
+    pts = set(rng.sample(range(1, n), k))
+    if rng.randrange(3) == 0:
+        pts.add(rng.randrange(1, min(n, 9)))        # a cut inside the first line (its first few octets)
+    pts = sorted(pts)
     out, prev = [], 0
     for p in pts:
         out.append(p - prev)
@@ -282,8 +299,9 @@ def tlc_rename(tier):
 
 def tlc_sessions(maxops, simulate, seed, ops):
     defs = ('MCInit == {[scripts |-> ("a" :> "B1") @@ ("b" :> "B2"), active |-> "a"], [scripts |-> <<>>, active |-> ""],'
+            ' [scripts |-> ("a" :> "B10") @@ ("b" :> "B2"), active |-> "b"],'
             ' [scripts |-> ("r{2}" :> "B4"), active |-> ""]}\n')
-    cfg = ("SPECIFICATION Spec\nCONSTANTS\n Names = {\"a\", \"b\", \"r{2}\"}\n Bodies = {\"B1\", \"B2\", \"B3\", \"B4\", \"B5\", \"B6\", \"B7\", \"B8\", \"B9\"}\n"
+    cfg = ("SPECIFICATION Spec\nCONSTANTS\n Names = {\"a\", \"b\", \"r{2}\"}\n Bodies = {\"B1\", \"B2\", \"B3\", \"B4\", \"B5\", \"B6\", \"B7\", \"B8\", \"B9\", \"B10\"}\n"
            " MaxOps = %d\n InitStores <- MCInit\n OpKinds = {%s}\nINVARIANT Emit\nINVARIANT WellFormed\nCHECK_DEADLOCK FALSE\n"
            % (maxops, ", ".join('"%s"' % o for o in ops)))
     out = []
